@@ -500,8 +500,8 @@ models.EXTRA_MODELS[list] = _list
 def _has_nested_array(t, cache={}):
     """does the formula mention a term whose sort is an array of arrays (contents of lists of lists)?"""
     key = t.get_id()
-    if key in cache:
-        return cache[key]
+    if key in cache and cache[key][0].eq(t):  # the cached term is kept alive, so its id cannot be reused by another term
+        return cache[key][1]
     todo, seen, hit = [t], set(), False
     while todo and not hit:
         a = todo.pop()
@@ -516,7 +516,7 @@ def _has_nested_array(t, cache={}):
             hit = True
         elif z3.is_app(a):
             todo.extend(a.children())
-    cache[key] = hit
+    cache[key] = (t, hit)
     return hit
 
 
@@ -535,8 +535,8 @@ def prove_without_list_contents(eng, label, goal, kind="annotation", note=""):
 def _symbols(t, cache={}):
     """names of the uninterpreted function symbols and constants of a formula"""
     key = t.get_id()
-    if key in cache:
-        return cache[key]
+    if key in cache and cache[key][0].eq(t):  # the cached term is kept alive, so its id cannot be reused by another term
+        return cache[key][1]
     out, todo, seen = set(), [t], set()
     while todo:
         a = todo.pop()
@@ -551,7 +551,7 @@ def _symbols(t, cache={}):
             if a.decl().kind() == z3.Z3_OP_UNINTERPRETED:
                 out.add(a.decl().name())
             todo.extend(a.children())
-    cache[key] = out
+    cache[key] = (t, out)
     return out
 
 
